@@ -364,6 +364,13 @@ func HarnessRelease() {
 		isPending := false
 		if txp := s.sh.pending[q.w]; txp != nil {
 			isPending = zzContains(txp.ids, q.id)
+			// an entry that stays pending keeps its allocating txid (ids and alloctx stay paired)
+			zz.Assert(len(txp.ids) == len(txp.alloctx), "release/ids-and-alloctx-same-length")
+			for i := range txp.ids {
+				if i < len(txp.alloctx) {
+					zz.Assert(zz.Implies(txp.ids[i] == q.id, txp.alloctx[i] == q.a), "release/pending-entry-keeps-its-allocating-txid")
+				}
+			}
 		}
 		zz.AssertUnless(zz.Implies(isFree, !needed), zzHasReaderZero(s.R), "release/safety-no-reader-version-contains-it", "C09/reader-txid-0-release-wraps")
 		zz.Assert(zz.Implies(must, isFree), "release/liveness")
